@@ -184,4 +184,8 @@ def run(ctx, progs):
     if rts:
         r23b(ctx, P, rts)
     r23c(ctx, P)
+    # R23.d = R02.f: the rollback point a failed /commit cuts the log back to is the real length of the log (every HTTP request opens a
+    # fresh writer, whose append handle has not written yet)
+    from sa.rules.C02 import r02f
+    r02f(ctx, P, rid="R23.d")
     ctx.assumptions += ["one shared IndexWriter queue/WAL per index; HTTP handlers open a writer per request, which replays the queued operations of earlier requests from the WAL"]
